@@ -301,8 +301,17 @@ class _Flattener(object):
         if tuple(location) in self.flat.nodes:
             raise OutOfModel('location visited twice')
         node = Node(tuple(location), tname)
-        if t.get('variables'):
-            raise OutOfModel('component variables')
+        variables = t.get('variables') or {}
+        if variables:
+            # %(v)s with v a component variable is left to the runtime; not modelled. Variable VALUES are ordinary fields.
+            def mentions(value):
+                if isinstance(value, dict):
+                    return any(mentions(x) for x in value.values())
+                if isinstance(value, list):
+                    return any(mentions(x) for x in value)
+                return isinstance(value, str) and any(('%%(%s)s' % v) in value for v in variables)
+            if any(mentions(t[k]) for k in t if k != 'signature') or any(v in env for v in variables):
+                raise OutOfModel('reference to a component variable')
         fields = []
         arguments = None
 
@@ -334,7 +343,7 @@ class _Flattener(object):
                 fields.append(('.'.join(prefix), str(value)))
 
         for k in t:
-            if k not in ('signature', 'variables'):
+            if k != 'signature':
                 walk((k,), t[k])
         node.fields = tuple(sorted(fields))
         items = self.parse(arguments if arguments is not None else '', env, None)
